@@ -880,27 +880,35 @@ class PureScheduler:                                    # pylint: disable=r0902
 
         await self._feedback(None, "scheduler is shutting down...")
 
-        # the done part is of no use here
-        _, pending = await asyncio.wait(tasks, timeout=timeout)
-        # everything went fine
-        # NOTE however: here we say that sub-schedulers that expired in timeout
-        # should not impact the overall result; this is an arguable choice
-        if not pending:
-            return True
+        try:
+            # the done part is of no use here
+            _, pending = await asyncio.wait(tasks, timeout=timeout)
+            # everything went fine
+            # NOTE however: here we say that sub-schedulers that expired
+            # in timeout should not impact the overall result;
+            # this is an arguable choice
+            if not pending:
+                return True
 
-        # with nested schedulers, this message would not be helpful
-        # because it is only guaranteed to show up at the toplevel
-        # and in addition the jobs count is local to the scheduler
-        # this is why this it's a verbose/feedback thing
-        await self._feedback(
-            None,
-            "WARNING: {}/{} co_shutdown() methods"
-            " have not returned within timeout"
-            .format(len(pending), len(self.jobs)))
-        await self._tidy_tasks(pending)
-        # we might need to consume any exception as well ?
-        # self._tidy_tasks_exception(done)
-        return False
+            # with nested schedulers, this message would not be helpful
+            # because it is only guaranteed to show up at the toplevel
+            # and in addition the jobs count is local to the scheduler
+            # this is why this it's a verbose/feedback thing
+            await self._feedback(
+                None,
+                "WARNING: {}/{} co_shutdown() methods"
+                " have not returned within timeout"
+                .format(len(pending), len(self.jobs)))
+            await self._tidy_tasks(pending)
+            # we might need to consume any exception as well ?
+            # self._tidy_tasks_exception(done)
+            return False
+        except asyncio.CancelledError:
+            # we are being cancelled ourselves (typically the shutdown of an
+            # enclosing scheduler has timed out): do not leave any
+            # co_shutdown() behind
+            await self._tidy_tasks(tasks)
+            raise
 
     ####################
     def run(self, *args, **kwds):
